@@ -62,9 +62,16 @@ def run(ctx):
         ctx.notes.append("design d%d not usable: %s" % (i, str(f)[:300]))
     nontrivial = set()
     judge(ctx, cases, nontrivial, hc.Explainer(ctx, "req", 1, 1))
-    ctx.cov["distinct_nontrivial"] = len(nontrivial)
     ctx.cov["designs"] = len(pl.designs)
     ctx.cov["designs_failed"] = len(pl.failed)
+    if not quick:
+        # two-attribute methods: too many to enumerate, seeded pairs of the enumerated single-attribute cases, judged by TLC (Cases_HTTPTransport)
+        uniq = hc.combine_cases(ctx, hc.gen_vectors(ctx, "req", 1, 1, label="Gen req 1x1 (for pairs)"), 4000, ctx.seed)
+        cases2, pl2 = hc.run_family(ctx, "req", uniq)
+        judge(ctx, cases2, nontrivial, hc.Explainer(ctx, "req", 2, 1))
+        ctx.cov["two_attribute_cases"] = len(cases2)
+        ctx.cov["designs"] += len(pl2.designs)
+    ctx.cov["distinct_nontrivial"] = len(nontrivial)
 
 
 def replay(ctx, rp):
